@@ -764,6 +764,8 @@ def summarise(prop, tier, results, wall, contracts):
             else:
                 undecided.append({"obligation": ob["name"], "reason": ob["reason"]})
         cs = [o["status"] for o in r["obligations"] if o["kind"] == "canary"]
+        if not r["obligations"] and not r.get("unsupported_variants"):
+            faults.append(f"vacuity: {r['qualname']} produced no obligation at all (every path ended in a contradiction)")
         if cs and not any(c in ("alive", "canary-unknown") for c in cs):
             faults.append(f"vacuity: no path of {r['qualname']} reaches its end (all canaries provable)")
         fn["obligations"] = len([o for o in r["obligations"] if o["kind"] != "canary"])
